@@ -406,6 +406,8 @@ class Client:
                         sock.close()
                         sock = None
                 else:
+                    # this address works: forget the failures of earlier ones
+                    error = None
                     break
 
             if error is not None:
